@@ -392,8 +392,11 @@ def cascade_case(ctx, scen, i):
         pair(ctx, 'cascade', i, lines, files_oracle=True, op_timeout=60)
         return
     nk = r.randrange(2, 6)
-    keys = [bytes([65 + j]) * (r.choice(first) if j == 0 else r.choice(later)) for j in range(nk)]
-    lines = ['db d0 db', 'map m0 d0 bytes m B1']
+    # every other case on a STRING-keyed map whose keys are not valid UTF-8 (a key record that moves is read into the key type and
+    # written back: the bytes must survive that round trip whatever they are)
+    kt, base = ('string', 0xC1) if i % 2 else ('bytes', 65)
+    keys = [bytes([base + j]) * (r.choice(first) if j == 0 else r.choice(later)) for j in range(nk)]
+    lines = ['db d0 db', 'map m0 d0 %s m B1' % kt]
     for j, k in enumerate(keys):
         lines.append('put m0 %s z%dx%d' % (k.hex(), r.choice([1, 5, 13]), j))
     big = 17000 if (ctx.quick or i % 3) else 2100000
@@ -1241,7 +1244,7 @@ def scen_C08(ctx):
                 'boundaries (so that a wider offset moves the record), value file pushed past the 16 KiB and 2 MiB offset-width boundaries by fillers; '
                 'breadth-first exploration of the state graph over an alphabet of 3 keys x 4 value sizes + deletes from three start images, states '
                 'identified by the model image, every path executed on the implementation and compared op by op (L_api + L_img at the end); '
-                'random collide histories on top; distinct = distinct op files')
+                'random collide histories on top, through both byte-string key types (string-keyed maps with keys that are not valid UTF-8) and the three integer key types; distinct = distinct op files')
     import random
     rng0 = random.Random('%s/C08' % ctx.seed)
 
@@ -1348,16 +1351,32 @@ def scen_C08(ctx):
             ks = list(dict.fromkeys(ks))
         else:
             ks = g.colliding_keys(4, r.randrange(4), r.randrange(2, 6), klens)
-        lines = ['db d0 db', 'map m0 d0 bytes m B%d' % n]
+        # byte-string keys are stored through both byte-string key types (random bytes: mostly not valid UTF-8)
+        kt = 'string' if i % 2 else 'bytes'
+        lines = ['db d0 db', 'map m0 d0 %s m B%d' % (kt, n)]
         nf = r.choice([0, 28, 33])
         for j in range(nf):
             lines.append('put m0 %s z500x%d' % (('f%02d' % j).encode().hex(), j))
         for j in range(0, nf, 4):
             lines.append('del m0 %s' % ('f%02d' % j).encode().hex())
-        lines += g.hist('bytes', ctx.scale(150, 600), keys=ks, big=0.0, reads=0.25)
+        lines += g.hist(kt, ctx.scale(150, 600), keys=ks, big=0.0, reads=0.25)
         lines += ['iter m0 iter', 'stats m0', 'closeall', 'snap db']
         pair(ctx, 'collide', i, lines, stats=g.stats, files_oracle=True, release=(not ctx.quick and i % 5 == 0))
     parallel(collide_hist, range(ctx.scale(60, 500)))
+
+    def collide_int(i):
+        # the three integer key types in a one-bucket table: 16-byte key slots that fill up when an offset field widens
+        g = G.G(ctx.seed, 'C08int', i)
+        kt = ['u64', 'i64', 'vu64'][i % 3]
+        ks = g.key_universe(kt, g.rng.randrange(3, 8))
+        lines = ['db d0 db', 'map m0 d0 %s m B1' % kt]
+        nf = g.rng.choice([0, 33])
+        for j in range(nf):
+            lines.append('put m0 %s z500x%d' % (G.hx(ks[j % len(ks)]), j))
+        lines += ['put m0 %s z17000x3' % G.hx(ks[0])] + g.hist(kt, ctx.scale(100, 400), keys=ks, big=0.0, reads=0.25)
+        lines += ['iter m0 iter', 'stats m0', 'closeall', 'snap db']
+        pair(ctx, 'collide_int', i, lines, stats=g.stats, files_oracle=True)
+    parallel(collide_int, range(ctx.scale(9, 60)))
     parallel(lambda i: cascade_case(ctx, 'C08', i), range(ctx.scale(24, 120)))
     # however large the offsets involved: a value beyond 2 MiB (4-byte varint fields), overwritten and followed by chained entries
     parallel(lambda i: huge_case(ctx, 'C08', i, reopen=False), range(ctx.scale(1, 4)), workers=4)
